@@ -235,14 +235,15 @@ Fixpoint apply_names {A} (a : tarena A) (idx2id : list N) (setn : A -> str -> A)
                    end
   end.
 Definition str_empty (s : str) : bool := match s with [] => true | _ => false end.
-(* Name::Local: `indices.get_func(f.index)?` aborts the rest of the name section on a bad function
-   index; locals are looked up in the parse-time local map *)
+(* Name::Local: an entry for an unknown function index is skipped with a warning, like out-of-range
+   entries of every other subsection (so the result is always [Some]; the option type is kept for the
+   callers); locals are looked up in the parse-time local map *)
 Fixpoint apply_local_names (m : wir) (ids : i2ids) (l : list (N * namemap)) : option wir :=
   match l with
   | [] => Some m
   | (fi, names) :: r =>
       match nth_N (ii_funcs ids) fi with
-      | None => None
+      | None => apply_local_names m ids r
       | Some fid =>
           let ls := match locals_of ids fid with Some v => v | None => [] end in
           let m1 := set_locals m (fold_left (fun a p =>
@@ -258,7 +259,7 @@ Definition parse_names (m : wir) (ids : i2ids) (n : wnames) : wir :=
   let m := match wn_module n with Some s => set_name m (Some s) | None => m end in
   let m := set_funcs m (apply_names (m_funcs m) (ii_funcs ids) (fun f s => {| fn_kind := fn_kind f; fn_name := Some s |}) (wn_funcs n)) in
   match apply_local_names m ids (wn_locals n) with
-  | None => m                                   (* the error aborts the remaining subsections *)
+  | None => m                                   (* unreachable: see above *)
   | Some m =>
   let m := set_types m {| Arena.arena := apply_names (Arena.arena (m_types m)) (ii_types ids) set_type_name (wn_types n); already := already (m_types m) |} in
   let m := set_tables m (apply_names (m_tables m) (ii_tables ids) (fun t s => {| tb_64 := tb_64 t; tb_init := tb_init t; tb_max := tb_max t; tb_elem := tb_elem t; tb_import := tb_import t; tb_segs := tb_segs t; tb_name := Some s |}) (wn_tables n)) in
